@@ -1,6 +1,6 @@
 (* C06 — The wire encoding is lossless and the two codecs agree. Theorems only; proofs in Proofs/Wire*P.v *)
 From Coq Require Import List NArith Bool Strings.Byte.
-From Sftp Require Import Base.GoSem Wire.Prim Wire.Packets Wire.Spec Proofs.PrimP Proofs.WireRtP Proofs.WirePktP.
+From Sftp Require Import Base.GoSem Wire.Prim Wire.Packets Wire.Spec Proofs.PrimP Proofs.WireRtP Proofs.WirePktP Proofs.WireBRtP.
 Import ListNotations.
 Open Scope N_scope.
 
@@ -56,6 +56,21 @@ Print Assumptions C06_encA_is_spec.
 Theorem C06_encB_is_spec : forall p, spec_layout p = fieldsB p.
 Proof. exact encB_is_spec. Qed.
 Print Assumptions C06_encB_is_spec.
+
+(* codec B decodes its own encoding of every request (other than INIT, which it does not decode as a request) back to the
+   packet: attribute blocks structured, every extended request in the generic form it keeps them in *)
+Theorem C06_decB_request_encB : forall p fs,
+  fieldsB p = Some fs -> forallb wf_fld fs = true -> is_request p = true -> not_init p = true ->
+  decB_request (u8_enc (ptype p) ++ render fs) = Ok (normB p).
+Proof. exact decB_request_encB. Qed.
+Print Assumptions C06_decB_request_encB.
+
+(* ... and of every STATUS, HANDLE, DATA, NAME and ATTRS response; with C06_encB_eq_encA: codec B decodes codec A's bytes *)
+Theorem C06_decB_response_encB : forall p fs,
+  fieldsB p = Some fs -> forallb wf_fld fs = true -> is_reply5 p = true ->
+  decB_response (u8_enc (ptype p) ++ render fs) = Ok p.
+Proof. exact decB_response_encB. Qed.
+Print Assumptions C06_decB_response_encB.
 
 (* non-vacuity: a WRITE with a non-UTF-8 payload at offset 2^63 and an OPEN with size+permissions attributes *)
 Example C06_nonvacuous :
